@@ -1091,6 +1091,7 @@ func (i *Interp) callBuiltin(caller *frame, callpos token.Pos, fn *ssa.Builtin, 
 			// in place: log the overwritten cells
 			dst := a[:len(a)+len(tail)]
 			for k := range tail {
+				i.noteWriteAt(&dst[len(a)+k], caller, callpos, "append into spare capacity")
 				i.tr.set(&dst[len(a)+k], copyVal(tail[k]))
 			}
 			return dst
@@ -1143,6 +1144,7 @@ func (i *Interp) callBuiltin(caller *frame, callpos token.Pos, fn *ssa.Builtin, 
 		tmp := make([]value, n)
 		copy(tmp, src[:n])
 		for k := 0; k < n; k++ {
+			i.noteWriteAt(&dst[k], caller, callpos, "copy")
 			i.tr.set(&dst[k], copyVal(tmp[k]))
 		}
 		return n
